@@ -54,6 +54,35 @@ var rtHeavy = map[string]bool{
 	"google.protobuf.Type": true, "google.protobuf.Api": true,
 }
 
+// rtWktTargets: corpus types dominated by well-known-type fields (extra weight).
+var rtWktTargets = map[string]bool{
+	"pb2.KnownTypes": true, "pbeditions.KnownTypes": true,
+	"protobuf_test_messages.proto3.TestAllTypesProto3":        true,
+	"protobuf_test_messages.editions.TestAllTypesEdition2023": true,
+	"google.protobuf.Struct": true, "google.protobuf.Value": true, "google.protobuf.Any": true,
+	"google.protobuf.Timestamp": true, "google.protobuf.Duration": true, "google.protobuf.FieldMask": true,
+	"google.protobuf.ListValue": true, "google.protobuf.Option": true,
+}
+
+// rtPick chooses the next target: random schemas, well-known-type heavy types, all-kinds types, any type.
+func rtPick(c *Ctx, all, heavy, rnd []*rtTarget) *rtTarget {
+	var wkt []*rtTarget
+	for _, t := range heavy {
+		if rtWktTargets[string(t.md.FullName())] {
+			wkt = append(wkt, t)
+		}
+	}
+	switch k := c.Intn(8); {
+	case k < 2 && len(rnd) > 0:
+		return rnd[c.Intn(len(rnd))]
+	case k < 4 && len(wkt) > 0:
+		return wkt[c.Intn(len(wkt))]
+	case k < 7 && len(heavy) > 0:
+		return heavy[c.Intn(len(heavy))]
+	}
+	return all[c.Intn(len(all))]
+}
+
 // rtTargets returns (all corpus targets, the heavy subset, random-schema targets).
 func rtTargets(c *Ctx, nrnd int) (all, heavy, rnd []*rtTarget) {
 	for _, mt := range msgAllTypes() {
@@ -62,7 +91,7 @@ func rtTargets(c *Ctx, nrnd int) (all, heavy, rnd []*rtTarget) {
 		g := &rtTarget{name: "gen", md: md, new: func() protoreflect.Message { return mt.New() }}
 		d := &rtTarget{name: "dyn", md: md, new: func() protoreflect.Message { return dynamicpb.NewMessage(md) }}
 		all = append(all, g, d)
-		if rtHeavy[string(md.FullName())] {
+		if rtHeavy[string(md.FullName())] || rtWktTargets[string(md.FullName())] {
 			heavy = append(heavy, g, d)
 		}
 	}
@@ -179,7 +208,7 @@ func rtFillValue(c *Ctx, m protoreflect.Message, depth int, o rtFillOpts) {
 	if depth <= 0 && k >= 4 {
 		k = c.Intn(4)
 	}
-	if o.unrep && c.Intn(40) == 0 {
+	if o.unrep && c.Intn(12) == 0 {
 		switch c.Intn(3) {
 		case 0:
 			return // no kind set
@@ -211,7 +240,7 @@ func rtFillValue(c *Ctx, m protoreflect.Message, depth int, o rtFillOpts) {
 		if c.Intn(6) == 0 {
 			s = []string{"NaN", "Infinity", "-Infinity", "1", "null", "true", "{}"}[c.Intn(7)]
 		}
-		if o.unrep && c.Intn(40) == 0 {
+		if o.unrep && c.Intn(15) == 0 {
 			s = msgBadStrings[c.Intn(len(msgBadStrings))]
 		}
 		m.Set(rtField(m, 3), protoreflect.ValueOfString(s))
@@ -233,7 +262,7 @@ func rtFillStruct(c *Ctx, m protoreflect.Message, depth int, o rtFillOpts) {
 	mp := m.Mutable(fd).Map()
 	for i := 0; i < n && *o.budget > 0; i++ {
 		key := []string{"", "a", "k" + strconv.Itoa(c.Intn(10)), "@type", "value", "é\"\\", " "}[c.Intn(7)]
-		if o.unrep && c.Intn(60) == 0 {
+		if o.unrep && c.Intn(20) == 0 {
 			key = msgBadStrings[c.Intn(len(msgBadStrings))]
 		}
 		v := mp.NewValue()
@@ -282,7 +311,7 @@ func rtFillAny(c *Ctx, m protoreflect.Message, depth int, o rtFillOpts) {
 	if c.Intn(12) == 0 {
 		return // empty Any
 	}
-	if o.unrep && c.Intn(12) == 0 {
+	if o.unrep && c.Intn(4) == 0 {
 		switch c.Intn(4) {
 		case 0: // value without type_url
 			m.Set(rtField(m, 2), protoreflect.ValueOfBytes([]byte{8, 1}))
@@ -313,7 +342,12 @@ func rtFillAny(c *Ctx, m protoreflect.Message, depth int, o rtFillOpts) {
 	if err != nil {
 		return
 	}
-	m.Set(rtField(m, 1), protoreflect.ValueOfString(rtAnyPrefixes[c.Intn(len(rtAnyPrefixes))]+string(mt.Descriptor().FullName())))
+	prefix := rtAnyPrefixes[c.Intn(len(rtAnyPrefixes))]
+	if o.unrep && c.Intn(8) == 0 {
+		// fine for JSON; not read back by the text lexer (finding FWD1)
+		prefix = []string{"https://example.com/", "a b/", "x:y/", "caf\u00e9/", "a%zz/", "a#b/"}[c.Intn(6)]
+	}
+	m.Set(rtField(m, 1), protoreflect.ValueOfString(prefix+string(mt.Descriptor().FullName())))
 	if len(b) > 0 {
 		m.Set(rtField(m, 2), protoreflect.ValueOfBytes(b))
 	}
@@ -324,7 +358,7 @@ func rtFillWkt(c *Ctx, m protoreflect.Message, depth int, o rtFillOpts) bool {
 	switch rtWkt(m.Descriptor()) {
 	case "Timestamp":
 		secs, nanos := rtPickSecs(c, rtMinTsSecs, rtMaxTsSecs), rtPickNanos(c)
-		if o.unrep && c.Intn(25) == 0 {
+		if o.unrep && c.Intn(6) == 0 {
 			switch c.Intn(4) {
 			case 0:
 				secs = rtMaxTsSecs + 1 + int64(c.Intn(3))
@@ -349,7 +383,7 @@ func rtFillWkt(c *Ctx, m protoreflect.Message, depth int, o rtFillOpts) bool {
 		if secs < 0 || (secs == 0 && c.Bool()) {
 			nanos = -nanos
 		}
-		if o.unrep && c.Intn(25) == 0 {
+		if o.unrep && c.Intn(6) == 0 {
 			switch c.Intn(4) {
 			case 0:
 				secs = rtMaxDurSecs + 1 + int64(c.Intn(3))
@@ -378,7 +412,7 @@ func rtFillWkt(c *Ctx, m protoreflect.Message, depth int, o rtFillOpts) bool {
 			l := m.Mutable(rtField(m, 1)).List()
 			for i := 0; i < n; i++ {
 				s := rtMaskGood[c.Intn(len(rtMaskGood))]
-				if o.unrep && c.Intn(25) == 0 {
+				if o.unrep && c.Intn(6) == 0 {
 					s = rtMaskBad[c.Intn(len(rtMaskBad))]
 				}
 				l.Append(protoreflect.ValueOfString(s))
@@ -408,7 +442,7 @@ func rtScalar(c *Ctx, fd protoreflect.FieldDescriptor, o rtFillOpts) protoreflec
 	if fd.Kind() == protoreflect.StringKind && !o.unrep {
 		return msgScalar(c, fd, false)
 	}
-	return msgScalar(c, fd, c.Intn(3) == 0)
+	return msgScalar(c, fd, c.Intn(2) == 0)
 }
 
 func rtFillSub(c *Ctx, sub protoreflect.Message, depth int, o rtFillOpts) {
